@@ -292,7 +292,7 @@ def diagnose(case, A, key, pa, pb, ha, hb):
     c2 = start_child([spec_of(case, case["seed"], pb)], ha)   # only the global-generator perturbation differs from A
     c3 = start_child([spec_of(case, case["seed"], pa)], ha)   # identical twin
     (H,), (G,), (T,) = finish_child(c1, 1), finish_child(c2, 1), finish_child(c3, 1)
-    same = lambda r: "error" not in r and trace_of(r, key) == trace_of(A, key)
+    same = lambda r: r.get("error") not in ("ChildTimeout", "ChildCrashed") and trace_of(r, key) == trace_of(A, key)
     if not same(T):
         cause = "process"
     elif not same(H) and same(G):
